@@ -26,6 +26,16 @@ def gen_int_graph(rnd, scale='unit', n=None):
             g[a][1].append(b)
     if scale == '1e7':
         g = {k: ((1e7 + p[0] * 3.1 + 0.37, 2e6 + p[1] * 2.7 + 0.41), nb) for k, (p, nb) in g.items()}
+        import zlib
+        r2 = random.Random(zlib.crc32(repr(sorted(g.items())).encode()))
+        if r2.random() < 0.4:
+            # a millimetre edge at projected-metre magnitude (two surveyed points of one junction): far above the absolute 1e-8
+            # tolerance of the planar geometry, but only 1e-10 .. 1e-9 of the coordinates themselves
+            k = r2.choice(sorted(g))
+            k2 = max(g) + 1
+            (y_, x_), nb_ = g[k]
+            g[k2] = ((y_ + r2.choice([0.004, 0.0, -0.008]), x_ + r2.choice([0.003, 0.006, -0.002])), [k])
+            nb_.append(k2)
     elif scale == 'deg':
         lat0, lon0 = rnd.choice([(50.0, 4.0), (-35.0, 120.0), (0.0, 0.0), (59.0, -75.0), (-23.5, -46.6), (-16.85, 179.997), (0.0, 179.999)])
         # (the last two straddle the antimeridian; longitudes are given in (-180, 180])
@@ -161,6 +171,18 @@ def metric(use_latlon):
     return de
 
 
+def planar_point_to_segment(p, a, b):
+    """nearest point of the segment a-b to p in the plane: (distance, point, relative position); a segment is a point only
+    when its end points are EQUAL (written from the geometry; same order of operations as the textbook formula)"""
+    dx, dy = b[0] - a[0], b[1] - a[1]
+    l2 = dx ** 2 + dy ** 2
+    if l2 == 0:
+        return math.hypot(p[0] - a[0], p[1] - a[1]), (a[0], a[1]), 0.0
+    t = max(0.0, min(1.0, ((p[0] - a[0]) * dx + (p[1] - a[1]) * dy) / l2))
+    q = (a[0] + t * dx, a[1] + t * dy)
+    return math.sqrt((p[0] - q[0]) ** 2 + (p[1] - q[1]) ** 2), q, t
+
+
 def same_ranked(got, exp_full, key_of, max_elmt=None, tol=1e-9):
     """got must be: sorted by distance; a subset of the full expectation with the right distances; of length
     min(max_elmt, len(full)); and contain every expected element strictly closer than its last element
@@ -270,7 +292,10 @@ def case_C11(seed):
             for a, b in edges:
                 if a == b:
                     continue
-                dd, pi, ti = lib.distance_point_to_segment(loc, g[a][0], g[b][0])
+                if use_latlon:
+                    dd, pi, ti = lib.distance_point_to_segment(loc, g[a][0], g[b][0])     # (checked against the 3-D reference below)
+                else:
+                    dd, pi, ti = planar_point_to_segment(loc, g[a][0], g[b][0])          # the suite's own planar geometry
                 if dd < r:
                     exp_e.append((dd, a, g[a][0], b, g[b][0], pi, ti))
             exp_e.sort(key=lambda t: t[0])
